@@ -19,9 +19,9 @@ claim("C02", "N", N("fresh context per transition, handed to the recursive call,
       TECH + "context-isolation, provenance and who-may-call rules (FSM-4/5/6/7, MAT-1/2/7, VAL-1/5/7)")
 claim("C03", "N", N("scanner: position grows only by +1 from a value known < len, every byte read is behind such a guard on every path (with jump-threading of the closed-flag), every cycle advances; "
       "error positions come from the scanner position, a token or len(spec); parser: atom consumes on every normal return, back() only before a panic, all panics are strings converted by the recover wrapper, recursion only after a consumed opener; "
-      "graph walks check-then-mark; the simplify fixpoint loop has a measure; matcher loops add a positive step; no panicking type assertion; every Cmd literal creates its maps; recursion progress per matcher (FSM-8)."),
-      TRUST + "FSM-8 is violated by three constructs (recorded finding D3: env-fallback of opt/options, spec-level `--`); index safety of the option matcher's string arithmetic and stack depth on progressing recursion are not decided.",
-      TECH + "guard-dominance bounds analysis of the scanner, loop-progress and typestate rules (LEX-1/2/5, PAR-2/5/7, FSM-1/2/8, MAT-6/12, GLOB-6, CMD-12)")
+      "graph walks check-then-mark; the simplify fixpoint loop has a measure; matcher loops add a positive step; no panicking type assertion; every Cmd literal creates its maps; the scanner and the parser error positions refer to the same Spec string (CMD-10); every read args[e] / re-slice args[e:] of the option matcher is implied by the dominating length tests in linear arithmetic (MAT-12 bounds); recursion progress per matcher (FSM-8)."),
+      TRUST + "FSM-8 is violated by three constructs (recorded finding D3: env-fallback of opt/options, spec-level `--`); index safety of the option matcher's arithmetic inside one token (string slicing) and stack depth on progressing recursion are not decided.",
+      TECH + "guard-dominance bounds analysis of the scanner, loop-progress and typestate rules (LEX-1/2/5, PAR-2/5/7, FSM-1/2/8, MAT-6/12, GLOB-6, CMD-10/12)")
 claim("C04", "N", N("the level split counts tokens up to the first alias of a direct sub-command; the level validates exactly args[:n] with its own automaton, compiled from its own declarations; a child is entered only after doInit and isAlias on that child with exactly the tokens after the alias; "
       "the hook chain is started once, at the leaf; leftovers take the rejection funnel; the version flag counts only in first position."),
       TRUST + "each level's own matching is C01/C02.",
@@ -35,15 +35,15 @@ claim("C06", "N", N("default stored by the constructor and captured before the e
       TRUST + "VAL-4 is violated at values.setMultivalued (recorded finding D4: an invalid list wipes a multi-valued default); values on concrete inputs are not decided.",
       TECH + "sibling-agreement over the declaration family, ordering and who-may-call rules (DECL-1/2/3/6/7, VAL-1/2/3/4/6/7, FSM-5/6)")
 claim("C07", "P", P("every error return of the dispatch function is preceded, on every path, by the error text and the usage on stdErr and then by onError(err) on the rejecting command; no Step.Run precedes it; Run/Cli.parse return the result unchanged and install no recover; "
-      "onError evaluated for 3 error classes x 3 policies; exiter/os.Exit used nowhere else; doInit errors panic; sub-commands inherit ErrorHandling; conversion errors abort the fill and are the automaton's error; output goes to stdErr/stdOut only."),
+      "a level's own tokens are validated before any descent into a child (CMD-6); onError evaluated for 3 error classes x 3 policies; exiter/os.Exit used nowhere else; doInit errors panic; sub-commands inherit ErrorHandling; conversion errors abort the fill and are the automaton's error; output goes to stdErr/stdOut only."),
       TRUST + "that every input that should be rejected reaches a rejection site is C01/C13.",
-      TECH + "must-pass-through funnel rule and scenario evaluation of the policy switch (CMD-1/2/8/9/11/12, FSM-5/6)")
+      TECH + "must-pass-through funnel rule and scenario evaluation of the policy switch (CMD-1/2/6/8/9/11/12, FSM-5/6)")
 claim("C08", "N", N("no iteration of the scanner advances without emitting a token (blank cases excepted); emitted kinds = declared kinds = kinds the parser consumes; first-set(atom) = canAtom; `=<..>` only after an option; token position = iteration start, text = input slice from there; "
       "only declared names compile, looked up in the right index with the command's own index passed on; no option after `--`; exactly one back() before a panic about a consumed token; ParseError positions by construction <= len; groups non-empty; doInit errors panic; the scanner gets Spec itself."),
       TRUST + "equivalence of scanner+parser with the documented grammar (the 'iff well-formed' direction) is not decided.",
       TECH + "table-agreement, consume=>emit path rule and typestate rules on lexer/parser (LEX-3/4/5/6, PAR-1..6, CMD-9/10)")
 claim("C09", "N", N("only the first `--` met while options are not ended is dropped, it sets the flag and exactly one token goes; the flag is copied into every fresh context and every matcher obeys it; after it a positional records the token verbatim; "
-      "acceptance at a terminal state is tested on the stripped vector; a spec `--` sets the same flag unconditionally and no option may follow it in the spec; the help scan stops at `--` unconditionally."),
+      "acceptance at a terminal state is tested on the stripped vector and every true/false verdict of apply comes after the strip; a spec `--` sets the same flag unconditionally and no option may follow it in the spec; the help scan stops at `--` unconditionally."),
       TRUST + "the insertion-invariance relation on concrete inputs is not decided.",
       TECH + "guard and dominance rules on fsm.apply and the matchers (FSM-4/7, MAT-2/3, PAR-4, CMD-4)")
 claim("C10", "N", N("all names of an option reach one container through one index that every matcher receives; one-letter names are the short ones; long and short matchers apply the same guards per form (own option only, non-empty '=' value, separate value not starting with '-', \"true\" for IsBool of the looked-up option); "
@@ -61,10 +61,10 @@ claim("C13", "P", P("each built-in Set calls the right strconv function on the p
       "every route to a typed variable is Set (filler, env application); a Set error aborts the fill and goes through the rejection funnel; recorded strings are verbatim token slices; single-valued env values are passed to Set untrimmed."),
       TRUST + "strconv itself; 64-bit target for int(i).",
       TECH + "per-type strconv table check with value provenance (VAL-1/2/3/7, FSM-5/6, MAT-2, CMD-1)")
-claim("C14", "P", P("the help scan runs first on the level's remaining arguments; State.Parse and Step.Run are reachable only when it found nothing; the help branch prints the long help, signals the sentinel, returns nil; the scan returns the index of -h/--help and -1 at the first `--` unconditionally; "
+claim("C14", "P", P("the help scan runs first on the level's remaining arguments; State.Parse and Step.Run are reachable only when it found nothing; the help branch prints the long help, signals the sentinel, returns nil; the scan returns the index of -h/--help and -1 at the first `--` unconditionally, and every token before it is compared with both names; "
       "the version test comes first, reads only args[0] under a length guard against the declared option's names, presence is a nil test of the record Version() creates; sentinels: exit 0 or return, never 2, never panic; usage line = full path."),
       TRUST + "the interaction with an ancestor's own `--` is excluded by the property.",
-      TECH + "dominance rules on the dispatch function and scenario evaluation of the policy switch (CMD-2/3/4/5/6/11, HELP-1/3)")
+      TECH + "dominance rules on the dispatch function and scenario evaluation of the policy switch (CMD-2/3/4/5/6/11/12, HELP-1/3)")
 claim("C15", "P", P("the only store through a SetByUser pointer is the filler's, of constant true, with no guard but the nil test, for keys of the merged maps; keys enter those maps only by appending a string derived from the command line; "
       "only the accepting branch's maps reach the filler; every declaration path stores the user's pointer."),
       TRUST + "'given => true' rests on C02's residue (an occurrence on the accepting path is recorded under its container).",
